@@ -46,6 +46,12 @@ CLAIMS = {
  'C02': ('exploration',
    "TLA+ spec SigVerify models signatures symbolically (digest = injective function of salt, canonical content / key framing, version, type, algorithms, hashed area) and the verifier as the ordered checks of Signature::verify*; TLC checks soundness/completeness over 7 kinds x v4|v6 x 21 perturbations and, switching one ingredient off at a time, that metadata hashing, salt binding, issuer match and version alignment are each decisive. TLC emits every cell; the harness realises it on genuine artefacts (4-6 key algorithms) with field-level perturbation through Signature::from_config, content edits, foreign keys and the same key material under another version/identity, through every applicable entry point (Signature::verify*, DetachedSignature, inline Message::verify with replaced packets, cleartext, certificate verify_bindings), plus exhaustive single-bit flips of a 64-octet content and of the whole signature packet (Ed25519 v4/v6).",
    'DESIGN.md 5/C02', 'TLA+ symbolic verifier model checked with TLC; TLC-generated perturbation matrix replayed on real artefacts (spec->impl conformance)'),
+ 'C11': ('exploration',
+   "TLA+ spec SigDigest gives the RFC 9580 5.2.4 preimage as a token layout for every signature type x signature version (3,4,6) x object x version of the signed key; TLC checks layout consistency (and that framing a key by the signer's version instead of its own is rejected) and emits all 87 layouts. The harness fills the tokens with octets of real objects and hashes with the primitive crates; the digest a recording SigningKey receives from sign / sign_certification_third_party / sign_subkey_binding / sign_primary_key_binding / sign_key / DetachedSignature / MessageBuilder must equal it, and a signature assembled over the independent preimage must verify in the crate with that digest (recording VerifyingKey) - RSA and EdDSA v4, Ed25519 and RSA v6, 4-5 hashes, hashed areas from empty to 60 kB (v4) / 70 kB (v6), same- and cross-version signees.",
+   'DESIGN.md 5/C11', 'TLA+ layout specification enumerated by TLC; independent spec-derived preimage vs digests observed at the primitive boundary (spec->impl conformance)'),
+ 'C13': ('exploration',
+   "TLA+ spec SigDigest states fingerprint preimage / hash / length / key-id rule per key version and the sites where the library embeds identities; TLC checks the fingerprint framing agrees with the framing used in signatures and emits the rules. The harness recomputes fingerprint and key id with the primitive crates for every primary and subkey of generated keys (9 algorithm pairs + 60 (thorough 300) seeds) and of every key that parses from the 344-file fixture corpus (v3, v4, v6), checks secret/public/serialised/armored/re-parsed copies agree, and reads the embedded values out of library-made signatures, one-pass packets and PKESKs with an independent deframer before looking the key up through them.",
+   'DESIGN.md 5/C13', 'TLA+ rule table enumerated by TLC; independent spec-derived fingerprint/key id vs the crate over generated + fixture keys (spec->impl conformance)'),
 }
 checks = []
 for p in props:
